@@ -1,5 +1,88 @@
-"""C13 - Colour conversions scale to the nearest value and preserve the extremes  (metadata; generators live here and/or in props/C13_*.py parts)"""
-CLAIMED = False   # set True by the owner once ./check C13 passes with real theorems
+"""C13 - Colour conversions scale to the nearest value and preserve the extremes."""
+from common import *
+import colorgen
+
+CLAIMED = True
 LEVEL = 'proof'
-LEVEL_TEXT = 'TODO'
-LEVEL_NOTE = 'TODO'
+LEVEL_TEXT = ('Proof: 32 Coq theorems. convert_channel is modelled exactly as written (24-bit reciprocal, constants regenerated from '
+              'conversion.rs): for all 64 (from bits, to bits) pairs in 1..8 and every value it returns the representable value nearest to '
+              'the exactly scaled one (2*|r*from_max - v*to_max| <= from_max), is monotone, maps 0 to 0 and max to max, widen-then-narrow is '
+              'the identity, and no intermediate leaves u32 (decided by vm_compute; monotonicity derived). Whole colours, quantified over the '
+              'GENERATED list of all 182 provided From impls (= every ordered pair of the 14 types) and all source values: every conversion '
+              'maps black to black and white to white; RGB->RGB, Gray->Gray and Gray->RGB give in every channel the nearest value, '
+              'monotonically, each output channel depending on the same input channel only; equal depths (RGB<->BGR) keep all channels; '
+              'converting to a type with at least as many bits per channel and back is the identity; Gray->RGB->Gray is the identity when '
+              'every RGB channel has at least as many bits; luma of a gray Rgb888 is that gray, luma is monotone, weights sum to 256 without '
+              'u16 overflow; RGB->Gray equals the 8-bit luma of the 8-bit-scaled channels scaled to the target (double rounding, as coded) '
+              'and is monotone in every channel; Gray->BinaryColor is On exactly for luma >= 2^(bits-1), RGB->BinaryColor exactly for '
+              '8-bit luma >= 128; BinaryColor->X gives BLACK/WHITE. The macro bodies are transcribed once in coq/Model/Colormodel.v and tied '
+              'to the code by the translator (fails closed on any change of a macro body) and by running the extracted model against the '
+              'real From impls for all 196 type pairs.')
+LEVEL_NOTE = ('"Nearest" is not claimed (and is false in general) for RGB->Gray and RGB->BinaryColor, which round twice; the theorems state '
+              'what the code computes plus extremes and monotonicity, as the property demands. Trusted: Coq kernel incl. vm_compute, the regex '
+              'translator, extraction, the drivers; u8/u16/u32 arithmetic is modelled in Z with the no-overflow facts proved '
+              '(C13_channel_no_overflow, C13_luma_weights). The Rust-side search p_conv checks the property itself against exact integer '
+              'rounding on every source value of every pair (2^24 values for the 24-bit types).')
+RULE = ('correspondence (extracted model vs real library): conv A B = storage of B::from(A::from(Raw::new(v))) for EVERY ordered pair of the 14 colour '
+        'types of the generated table (the 182 provided From impls + the reflexive one) on storage values v: all values for 8-bit storage, '
+        'arithmetic progressions (random start, stride in {1, 257, 4099, 65537}) covering 2^13 (quick) / 2^16 (thorough) values per pair for '
+        '16/32-bit storage, plus the first and last 256 storage values. search: p_conv A B evaluates the property on the implementation against '
+        'exact integer rounding (no reciprocal): black/white, every channel nearest (rgb->rgb, gray->gray, gray->rgb), rgb->gray = documented '
+        '8-bit luma of the 8-bit scaled channels scaled to the target + monotone in every channel, widen-then-narrow identity, '
+        'gray/rgb -> binary upper half, binary -> black/white; for every pair over ALL source values (2^24 for the 24-bit types). '
+        'web T = storage of all 141 CSS constants of T (p_web: against the CSS values scaled to nearest). '
+        'Non-trivial = result line not empty; distinct = distinct case lines.')
+EXHAUSTIVE = {'quick': False, 'thorough': False}
+ASSUMPTIONS = ['a colour value of type t is an integer 0 <= c < 2^(used bits of t) (C12 shows every constructor yields one)']
+TRUSTED = ['modelled, not verified: u8/u16/u32 `*`, `/`, `<<`, `>>`, `as` as Z operations (no-overflow facts are theorems)',
+           'translate/gen_colors.py: regex reading of the impl_*conversion!/impl_*binary! rows and of the literal constants; literal shape '
+           'checks of convert_channel, luma and the seven conversion macro bodies that Model/Colormodel.v transcribes']
+PARTIAL = []
+
+
+def cases(tier, rng):
+    types, _ = colorgen.load()
+    info = {t[0]: t for t in types}
+    for a in info:
+        yield J('web', a)       # all CSS constants of the type (types without WebColors answer NO-WEB-COLORS on both sides)
+    per_pair = 2 ** 13 if tier == 'quick' else 2 ** 16
+    for a in info:
+        _, kind, sbits, bpp = info[a]
+        for b in info:
+            if sbits <= 8:
+                yield J('conv', a, b, 0, 256, 1)
+                continue
+            total = 2 ** sbits
+            yield J('conv', a, b, 0, 256, 1)
+            yield J('conv', a, b, 2 ** bpp - 256, 256, 1)
+            if sbits > bpp:
+                yield J('conv', a, b, total - 256, 256, 1)
+            n = per_pair // 256
+            for k in range(n):
+                stride = rng.choice([1, 257, 4099, 65537]) if bpp > 16 else rng.choice([1, 3, 17, 255])
+                span = 255 * stride
+                # stratified start: the k-th of n equal strata of the value space
+                lo = (2 ** bpp) * k // n
+                hi = max(lo + 1, min((2 ** bpp) * (k + 1) // n, total - span))
+                start = rng.randrange(lo, hi) if lo < hi and lo + span < total else rng.randrange(0, total - span)
+                yield J('conv', a, b, start, 256, stride)
+
+
+def search(tier, rng):
+    types, _ = colorgen.load()
+    info = {t[0]: t for t in types}
+    for a in colorgen.web_types():
+        yield J('p_web', a)
+    for a in info:
+        _, kind, sbits, bpp = info[a]
+        for b in info:
+            if a == b:
+                continue
+            if sbits <= 16:
+                yield J('p_conv', a, b, 0, 2 ** sbits, 1)
+            else:
+                # every colour value (2^bpp), in 16 chunks; plus storage values with the unused top byte set
+                for k in range(16):
+                    yield J('p_conv', a, b, k * 2 ** (bpp - 4), 2 ** (bpp - 4), 1)
+                yield J('p_conv', a, b, 2 ** sbits - 2 ** 16, 2 ** 16, 1)
+                yield J('p_conv', a, b, rng.randrange(2 ** bpp, 2 ** sbits - 2 ** 16 * 4099), 2 ** 16, 4099)
